@@ -158,7 +158,14 @@ def run(P, C, tier):
             b = P.body(fn)
             C.saw(b)
             vp = b.calls_to(r"Variables::validate_params$")
-            us = b.calls_to(users)
+            # uses made directly or inside a closure handed to an iterator driver (`mutations.iter().map(|m| Self::get_mutate_query(m, ..)).collect()`)
+            ur = re.compile(users)
+            us = []
+            for bi_, t_, ob_, obi_ in b.calls_incl_closures():
+                callee_name(t_)
+                if ur.search(t_["nrf"]) or ur.search(t_["nf"]):
+                    if (bi_, t_) not in us:
+                        us.append((bi_, t_))
             ok = len(vp) == 1 and bool(us)
             if ok:
                 re_ = mir.result_edges(b, vp[0][0])
